@@ -50,6 +50,14 @@ ASSUMPTIONS = [
 AMOUNTLIKE = ('amount', 'position', 'inventory')
 
 
+def _amountlike_types():
+    from beancount.core import amount, position, inventory
+    return (amount.Amount, position.Position, inventory.Inventory)
+
+
+AMOUNTLIKE_TYPES = _amountlike_types()
+
+
 def _rot(seq, seed):
     return seq[seed % len(seq)]
 
@@ -274,7 +282,63 @@ def shard(shard_no, nshards, seed, thorough):
     return acc
 
 
+# ---- the convenience entry point beanquery.query.run_query(..., numberify=True) ---------------------------------
+
+RUN_QUERY_STATEMENTS = [
+    "SELECT account, sum(position) AS total, count(*) AS n GROUP BY account",
+    "SELECT account, sum(position) AS total, count(*) AS n WHERE account ~ 'DoesNotExist' GROUP BY account",     # zero rows
+    "SELECT date, account, units(position) AS u, price WHERE year = 2019 AND month = 2",
+    "SELECT date, account, units(position) AS u, price WHERE year = 1900",                                       # zero rows
+    "SELECT account, position, weight, balance WHERE account ~ 'Broker'",
+    "SELECT account, position WHERE number > 100000",                                                            # zero rows
+    "SELECT narration, number WHERE year = 2019 AND month = 1",                                                  # no amount-like column
+    "SELECT sum(position) AS total, sum(cost(position)) AS book, last(date) AS d WHERE account ~ 'Assets'",
+    "SELECT account, sum(position) AS total WHERE 1 = 2",                                                        # zero rows, ungrouped key
+]
+
+
+def check_run_query(only=None):
+    """run_query(entries, options, text, numberify=True) == numberify_results(description, rows, formatter) of the plain
+    API result (the property: numberifying a result ...), for results WITH and WITHOUT rows."""
+    import beanquery
+    from beanquery import query as bq_query, numberify as bq_numberify
+    from .. import sample_ledger
+    entries, errors, options = sample_ledger.load()
+    out = []
+    n = 0
+    for text in RUN_QUERY_STATEMENTS:
+        if only is not None and text != only:
+            continue
+        n += 1
+        conn = beanquery.connect('beancount:', entries=entries, errors=[], options=options)
+        cur = conn.execute(text)
+        rows = cur.fetchall()
+        etypes, erows = bq_numberify.numberify_results(cur.description, rows, options['dcontext'].build())
+        case = {'kind': 'run_query', 'text': text}
+        try:
+            gtypes, grows = bq_query.run_query(entries, options, text, numberify=True)
+            ptypes, prows = bq_query.run_query(entries, options, text)
+        except Exception as e:
+            out.append(Violation(f'run_query:crash:{type(e).__name__}', f'run_query({text!r}, numberify=True) raised {type(e).__name__}: {e}', case))
+            continue
+        sig = lambda types: [(c.name, c.datatype) for c in types]
+        if sig(ptypes) != sig(cur.description) or list(prows) != list(rows):
+            out.append(Violation('run_query:plain-result', f'run_query({text!r}) differs from Connection.execute: {sig(ptypes)!r} vs {sig(cur.description)!r}', case))
+        elif sig(gtypes) != sig(etypes):
+            out.append(Violation('run_query:numberified-columns', f'run_query({text!r}, numberify=True) has columns {sig(gtypes)!r}; numberifying the API result ({len(rows)} rows) gives {sig(etypes)!r}', case))
+        elif [tuple(r) for r in grows] != [tuple(r) for r in erows]:
+            out.append(Violation('run_query:numberified-rows', f'run_query({text!r}, numberify=True) rows {list(grows)[:3]!r}; numberifying the API result gives {list(erows)[:3]!r}', case))
+        # the amount-like columns must be gone whatever the number of rows
+        for c in gtypes:
+            if c.datatype in AMOUNTLIKE_TYPES:
+                out.append(Violation('run_query:amount-like-column-left', f'run_query({text!r}, numberify=True) still has the {c.datatype.__name__} column {c.name!r} ({len(rows)} rows)', case))
+                break
+    return n, out
+
+
 def replay(case):
+    if case.get('kind') == 'run_query':
+        return check_run_query(only=case['text'])[1]
     cols = [tuple(c) for c in case['columns']]
     rows = [tuple(R.dec(v) for v in r) for r in case['rows']]
     out = []
@@ -314,4 +378,6 @@ def run(ctx):
         'display_precision': {c: R.PRECISION[c] for c in ('USD', 'HOOL', 'EUR')},
         'samples': acc.samples,
     }
-    return Result(cov, collect(acc), ASSUMPTIONS)
+    nrq, vrq = check_run_query()
+    cov['run_query_statements'] = nrq
+    return Result(cov, collect(acc) + vrq, ASSUMPTIONS)
